@@ -79,6 +79,14 @@ def mutate_templates():
     src = ['fn t(n, v) {', '    print(n)', '    return v', '}', 'xs := []', 'if t(1, @b0@) {', '    print(10)', '} else if t(2, @b1@) {', '    print(20)', '} else if t(3, @b2@) {', '    print(30)', '} else {', '    print(40)', '}',
            'if xs == [] {', '    print("empty")', '} else if xs[0] == 1 {', '    print("one")', '}', 'i := 0', 'while t(4, i < 2) {', '    i += 1', '}']
     ts.append({'name': 'if-chain-effects', 'src': '\n'.join(src) + '\n'})
+    # an empty branch is still the branch taken
+    src = ['fn t(n, v) {', '    print(n)', '    return v', '}', 'if t(1, @b0@) {', '} else if t(2, @b1@) {', '    print(20)', '} else {', '    print(30)', '}', 'if @b2@ {', '    # only a comment', '} else if @b0@ {', '} else {', '    print(40)', '}',
+           'for [i, v] in [1, 2, 3] {', '    if v == 2 {', '    } else {', '        continue', '    }', '    print(v)', '}', 'print(0)']
+    ts.append({'name': 'empty-branches', 'src': '\n'.join(src) + '\n'})
+    # break / continue / return inside function literals and methods (no loop of their own), called from inside a loop
+    src = ['s := @h0@', 'lit := fn (s) {', '    print(190)'] + ind(jump_ladder('s')) + ['    print(191)', '}', 'o := {"m": fn (s) {', '    {'] + ind(jump_ladder('s'), 2) + ['    }', '    return 5', '}}',
+           'for [i, v] in [1, 2] {', '    print(v)', '    if @b0@ {', '        print(lit(s))', '    } else {', '        print(o.m(s))', '    }', '}', 'print(8)']
+    ts.append({'name': 'jumps-in-literals', 'src': '\n'.join(src) + '\n', 'assume': lambda v: [v['h0'] >= 0, v['h0'] <= 3]})
     # call that runs off its end yields null; return value through nested blocks
     src = ['fn f(c) {', '    if c {', '        {', '            return 1', '        }', '    }', '}', 'print(f(@b0@))']
     ts.append({'name': 'return-or-null', 'src': '\n'.join(src) + '\n'})
